@@ -389,7 +389,7 @@ func decodeFloat32Key(dec *mapDecoder, raw string) (interface{}, error) {
 	if err != nil {
 		return nil, err
 	}
-	if ret > math.MaxFloat32 || ret < -math.MaxFloat32 {
+	if math.IsInf(float64(float32(ret)), 0) {
 		return nil, error_value(key, dec.mapType.Key.Pack())
 	}
 	return float32(ret), nil
